@@ -104,8 +104,10 @@ EndsTogether ==
 
 (* ---- SPEC: the machine against the rest of the specification ---- *)
 Devs == {"rep_leaf_only", "rule5_leaf_only"}
+(* (a self-check of the model, not of the code: in the quick tier on every fourth record) *)
+SelfCheckEvery == IF "RT_SELFCHECK_EVERY" \in DOMAIN IOEnv THEN atoi(IOEnv.RT_SELFCHECK_EVERY) ELSE 1
 MachineSound ==
-  Fresh =>
+  (Fresh /\ case % SelfCheckEvery = 0) =>
     LET T == Strip(Toks) IN
     /\ MachineVisitsOwn(Toks) \/ Say("SPEC", "machine_does_not_visit_every_branch_with_its_own_context", [n |-> Len(MachineVisits(Toks))])
     /\ ("bounds" \in CommonViolations(T) \/ AmbiguousOnce(T) \/ ((ImplVerdict(Toks) = "") <=> (ViolationsDev(T, Devs) = {})))
